@@ -137,6 +137,22 @@ impl Form {
             _ => 4,
         }
     }
+    /// `l op r` with the spaces the grammar makes optional sometimes left out: none is needed before an
+    /// operator that follows `)` or `them` (or when the operator is a symbol), none after an operator
+    fn glue(rng: &mut Rng, l: &str, op: &str, r: &str) -> String {
+        let symbol = op == "&&" || op == "||";
+        let left_free = symbol || l.ends_with(')') || l.ends_with("them");
+        let ls = if left_free && rng.chance(1, 6) { "" } else { " " };
+        let rs = if rng.chance(1, 6) { "" } else { " " };
+        format!("{l}{ls}{op}{rs}{r}")
+    }
+    fn sp(rng: &mut Rng) -> &'static str {
+        match rng.below(8) {
+            0 => "",
+            1 => "  ",
+            _ => " ",
+        }
+    }
     fn group(p: &Option<String>) -> String {
         match p {
             None => "them".into(),
@@ -153,9 +169,10 @@ impl Form {
                 let inner = f.render(rng);
                 // `negate? ~ primary`: the operand of a negation must be a primary
                 let inner = if f.prec() < 4 { format!("({inner})") } else { inner };
-                match rng.below(3) {
-                    0 => format!("not {inner}"),
-                    1 => format!("!{inner}"),
+                match rng.below(5) {
+                    0 | 1 => format!("not {inner}"),
+                    2 => format!("!{inner}"),
+                    3 => format!("not{inner}"),
                     _ => format!("! {inner}"),
                 }
             }
@@ -166,19 +183,28 @@ impl Form {
                 // right operand of a left-associative operator needs parentheses at equal precedence
                 let r = if b.prec() <= 2 { format!("({r})") } else { r };
                 let op = *rng.pick(&["and", "AND", "&&"]);
-                format!("{l} {op} {r}")
+                Self::glue(rng, &l, op, &r)
             }
             Form::Or(a, b) => {
                 let l = a.render(rng);
                 let r = b.render(rng);
                 let r = if b.prec() <= 1 { format!("({r})") } else { r };
                 let op = *rng.pick(&["or", "OR", "||"]);
-                format!("{l} {op} {r}")
+                Self::glue(rng, &l, op, &r)
             }
-            Form::All(p) => format!("all of {}", Self::group(p)),
-            Form::Any(p) => format!("any of {}", Self::group(p)),
-            Form::NoneOf(p) => format!("none of {}", Self::group(p)),
-            Form::N(n, p) => format!("{} of {}", n, Self::group(p)),
+            // `count`/keyword, `of` and the group are separate tokens of non-atomic rules: any number of
+            // spaces, including none, may separate them
+            Form::All(p) => format!("all{}of{}{}", Self::sp(rng), Self::sp(rng), Self::group(p)),
+            Form::Any(p) => format!("any{}of{}{}", Self::sp(rng), Self::sp(rng), Self::group(p)),
+            Form::NoneOf(p) => format!("none{}of{}{}", Self::sp(rng), Self::sp(rng), Self::group(p)),
+            Form::N(n, p) => {
+                let digits = match rng.below(8) {
+                    0 => format!("0{n}"),
+                    1 => format!("00{n}"),
+                    _ => n.to_string(),
+                };
+                format!("{}{}of{}{}", digits, Self::sp(rng), Self::sp(rng), Self::group(p))
+            }
         };
         if !matches!(self, Form::Tt) && rng.chance(1, 8) {
             format!("({s})")
@@ -272,7 +298,7 @@ pub fn ext_tables(patterns: &[String], hays: &[String], num_texts: &[String]) ->
     let mut fp = vec![];
     let mut seen = std::collections::HashSet::new();
     for t in num_texts {
-        if !t.contains('.') || !seen.insert(t.clone()) {
+        if !seen.insert(t.clone()) {
             continue;
         }
         match t.parse::<f64>() {
